@@ -751,9 +751,24 @@ def expected(engine, table, default):
     return DL([(g[1] if g[0] == 'formula' else engine.cond(g), v) for g, v in table], default)
 
 
+def _mask_target(engine, v, target):
+    """target.eq(X & s.replicate(len(target))): the assignment truncates to the target anyway, so this is Mux(s, X, 0)."""
+    v = engine.norm(v)
+    if target is None or v[0] != 'nary' or v[1] != '&' or len(v[2]) != 2:
+        return v
+    n_t = engine.norm(('call', ('name', 'len'), (target,), ()))
+    for m_, x_ in ((v[2][0], v[2][1]), (v[2][1], v[2][0])):
+        if m_[0] == 'call' and m_[1][0] == 'attr' and m_[1][2] == 'replicate' and len(m_[2]) == 1 and engine.w.bit(m_[1][1]) and \
+                engine.norm(m_[2][0]) == n_t:
+            return ('call', ('name', 'Mux'), (m_[1][1], x_, ('const', 0)), ())
+    return v
+
+
 def _pick(engine, dl, val):
     for g, v in dl.entries:
         if f_eval(g, val):
+            if dl.target is not None:
+                v = _mask_target(engine, v, dl.target)
             r = engine.eval_value(v, val)
             if dl.target is not None and dl.default == HOLD and r[0] == 'sym' and r[1] == ir.show(dl.target):
                 return ('hold',)                        # x <= x
@@ -783,6 +798,15 @@ def compare(engine, got, want, assume=None):
         rows += 1
         a = _pick(engine, got, val)
         b = _pick(engine, want, val)
+        # "hold" of a one-bit register is its current value, which is an atom of the table whenever an expression mentions it
+        # (q <= trg | (q & ~clr) written as one assignment instead of If/Elif)
+        tgt = got.target if got.target is not None else want.target
+        if tgt is not None and (a == ('hold',)) != (b == ('hold',)):
+            tkey = ir.show(tgt)
+            if tkey in val:
+                cur = ('const', int(val[tkey]))
+                a = cur if a == ('hold',) else a
+                b = cur if b == ('hold',) else b
         if a != b:
             on = ", ".join(f"{k}={int(v)}" for k, v in sorted(val.items()))
             if any("<<" in k for k in val):
@@ -859,10 +883,22 @@ def is_config(e):
     return False
 
 
+def _mux_mask_pair(a, b):
+    if a[0] == 'call' and a[1] == ('name', 'Mux') and len(a[2]) == 3 and a[2][2] == ('const', 0) and \
+            b[0] == 'nary' and b[1] == '&' and len(b[2]) == 2:
+        s_, x_ = a[2][0], a[2][1]
+        for m_, v_ in ((b[2][0], b[2][1]), (b[2][1], b[2][0])):
+            if v_ == x_ and m_[0] == 'call' and m_[1][0] == 'attr' and m_[1][2] == 'replicate' and m_[1][1] == s_:
+                return True
+    return False
+
+
 def differ(a, b):
     """'same' | 'different' | 'unknown' for two normalised expressions (see is_config)."""
     if a == b:
         return 'same'
+    if _mux_mask_pair(a, b) or _mux_mask_pair(b, a):
+        return 'unknown'                        # equal iff the replication count is the operand's width: not known here
     if is_config(a) or is_config(b):
         return 'unknown'
     if a[0] == 'const' and b[0] == 'const':
